@@ -241,6 +241,32 @@ pub(crate) fn weak_upgrade_panics_at_max() {
     core::mem::forget((h, up, w));
 }
 
+/// REAL `Weak::upgrade` through the emulated unwind out of its limit panic (H5): nothing changed for the caller.
+//@ C16 C08 | complete | deciding | feat=full,finweak | fn=Weak::upgrade | timeout=600
+#[kani::proof]
+#[kani::unwind(9)]
+pub(crate) fn weak_upgrade_at_max_unwinds_leaving_everything() {
+    let (h, m, k) = node_with_record();
+    kani::assume(k >= 1);
+    let x = raw_of(&h);
+    let in_pc: bool = kani::any();
+    if in_pc { crate::cc::add_to_list(x); }
+    let (t0, c0) = havoc_idle(x, in_pc);
+    kani::assume(c0 & 0x3fff == 16382);
+    let fl = any_flags_not_tracing();
+    let sn0 = state(|s| sp::snap(s));
+    let w = weak_from_parts(Some(m), unsafe { REG[0].unwrap() });
+    g().emulate_limit_panics = true;
+    let up = w.upgrade();
+    core::mem::forget(up); // poisoned result of the emulated unwind
+    g().emulate_limit_panics = false;
+    kani::assert(ghost::catch(), "Weak::upgrade::post::panics_at_limit");
+    kani::assert(words_of(x) == (t0, c0), "Weak::upgrade::unwind::strong_count_and_flags_unchanged_after_the_caught_panic");
+    kani::assert(md::wword(m) == 0x8000 | k, "Weak::upgrade::unwind::weak_count_unchanged");
+    kani::assert(pc_view().1 == in_pc as usize && state(|s| sp::snap(s)) == sn0 && ccp::cb_counts() == (0, 0, 0), "Weak::upgrade::unwind::buffer_and_collector_state_unchanged");
+    core::mem::forget((h, w));
+}
+
 //@ C12 | complete | deciding | feat=full,finweak | fn=Weak::upgrade | panic=Cannot upgrade while tracing!
 #[kani::proof]
 #[kani::should_panic]
@@ -302,18 +328,53 @@ pub(crate) fn weak_downgrade_panics_at_max() {
     core::mem::forget((h, w));
 }
 
-//@ C16 C09 | complete | deciding | feat=full,finweak | fn=Cc::downgrade,Weak::clone
+/// REAL `Cc::downgrade` / `Weak::clone` through the emulated unwind out of their limit panics (H5): the state
+/// the caller sees AFTER catching the panic (every local live at the panic site has been dropped) is unchanged.
+//@ C16 C09 | complete | deciding | feat=full,finweak | fn=Cc::downgrade | timeout=600
 #[kani::proof]
 #[kani::unwind(9)]
-pub(crate) fn weak_count_unchanged_at_max() {
+pub(crate) fn weak_downgrade_at_max_unwinds_leaving_everything() {
     let (h, m, k) = node_with_record();
     kani::assume(k == 32767);
     let x = raw_of(&h);
-    let w0 = words_of(x);
-    // the prefix of downgrade / Weak::clone up to the panic is exactly this call
-    let r = unsafe { m.as_ref() }.weak_counter_marker.increment_counter();
-    kani::assert(r.is_err() && md::wword(m) == 0x8000 | k && words_of(x) == w0, "Cc::downgrade::post::weak_count_unchanged_at_limit");
+    let in_pc: bool = kani::any();
+    if in_pc { crate::cc::add_to_list(x); }
+    let (t0, c0) = havoc_idle(x, in_pc);
+    let fl = any_flags_not_tracing();
+    let sn0 = state(|s| sp::snap(s));
+    g().emulate_limit_panics = true;
+    let w = h.downgrade();
+    core::mem::forget(w); // poisoned result of the emulated unwind
+    g().emulate_limit_panics = false;
+    kani::assert(ghost::catch(), "Cc::downgrade::post::panics_at_limit");
+    kani::assert(md::wword(m) == 0x8000 | k, "Cc::downgrade::unwind::weak_count_unchanged_after_the_caught_panic");
+    kani::assert(words_of(x) == (t0, c0 | 0x8000), "Cc::downgrade::unwind::strong_count_flags_and_mark_unchanged");
+    kani::assert(pc_view().1 == in_pc as usize && state(|s| sp::snap(s)) == sn0 && ccp::cb_counts() == (0, 0, 0), "Cc::downgrade::unwind::buffer_and_collector_state_unchanged");
     core::mem::forget(h);
+}
+
+//@ C16 C09 | complete | deciding | feat=full,finweak | fn=Weak::clone | timeout=600
+#[kani::proof]
+#[kani::unwind(9)]
+pub(crate) fn weak_clone_at_max_unwinds_leaving_everything() {
+    let (h, m, k) = node_with_record();
+    kani::assume(k == 32767);
+    let x = raw_of(&h);
+    let in_pc: bool = kani::any();
+    if in_pc { crate::cc::add_to_list(x); }
+    let (t0, c0) = havoc_idle(x, in_pc);
+    let fl = any_flags_not_tracing();
+    let sn0 = state(|s| sp::snap(s));
+    let w = weak_from_parts(Some(m), unsafe { REG[0].unwrap() });
+    g().emulate_limit_panics = true;
+    let w2 = w.clone();
+    core::mem::forget(w2); // poisoned result of the emulated unwind
+    g().emulate_limit_panics = false;
+    kani::assert(ghost::catch(), "Weak::clone::post::panics_at_limit");
+    kani::assert(md::wword(m) == 0x8000 | k, "Weak::clone::unwind::weak_count_unchanged_after_the_caught_panic");
+    kani::assert(words_of(x) == (t0, c0), "Weak::clone::unwind::box_counters_unchanged");
+    kani::assert(pc_view().1 == in_pc as usize && state(|s| sp::snap(s)) == sn0 && ccp::cb_counts() == (0, 0, 0), "Weak::clone::unwind::buffer_and_collector_state_unchanged");
+    core::mem::forget((h, w));
 }
 
 //@ C09 C08 | complete | deciding | feat=full,finweak | fn=Weak::clone,Weak::drop,Weak::ptr_eq | timeout=900
